@@ -32,6 +32,14 @@ def run(tier):
     obs = vlib.run_harness("sandbox", cases, "c08", timeout=1800)
     by = {c["id"]: c for c in cases}
     denied = accepted = 0
+    # a dangerous case counts as rejected by the capability gate when the engine says so, or - whatever the wording of
+    # the error - when the harmless controls in the same position and syntax compile (the snippet itself is sound)
+    control_ok = {}
+    for o in obs:
+        c = by[o["id"]]
+        if c["expect"] == "accepted":
+            k = (c["pos"], c["syn"])
+            control_ok[k] = control_ok.get(k, True) and not (o["compileErr"] or o["validateErr"] or o.get("panic"))
     for o in obs:
         c = by[o["id"]]
         detail = {"builtin": c["b"], "position": c["pos"], "syntax": c["syn"], "observation": {k: o[k] for k in o if k != "profile"},
@@ -52,7 +60,7 @@ def run(tier):
             V.disagree("%s performed network I/O" % c["b"], detail)
         elif not o["compileErr"] or not o["validateErr"]:
             V.disagree("%s accepted (%s)" % (c["b"], "CompileProfile" if not o["compileErr"] else "Validate"), detail)
-        elif not o["unsafeReason"]:
+        elif not o["unsafeReason"] and not (control_ok.get((c["pos"], c["syn"])) and c["syn"] != "withMock"):
             raise vlib.Infra("case rejected for another reason than the capability gate (snippet broken): %s\n%s\n%s"
                              % (c, o.get("compileMsg"), o.get("profile")))
         else:
